@@ -4,8 +4,10 @@ import "fmt"
 
 // runRGExhaustive: small-scope exhaustive correspondence for the regulator (thorough tier): for
 // small table sizes EVERY sequence of L operations over the alphabet
-//   add 1 | add 2 | add max+1 | next status | sync(t, 0) and sync(t, 1) for every open table t |
-//   sync(unknown table, 1) | settle (sweep all tables until quiet)
+//
+//	add 1 | add 2 | add max+1 | next status | sync(t, 0) and sync(t, 1) for every open table t |
+//	sync(unknown table, 1) | settle (sweep all tables until quiet)
+//
 // (the alphabet depends on the state, so the enumeration is a replay-based depth-first search over
 // choice indices).  Which members a sync eliminates / releases, and which table a Go map
 // iteration picks, are NOT enumerated: they are drawn (seeded PRNG / Go runtime) and recorded on
@@ -82,7 +84,8 @@ func runRGExhaustive(dir string, L, part, parts int) {
 					}
 					g.sync(op.a, out, rng)
 				case "settle":
-					limit := 10 + len(g.members)
+					g.flushAll()
+					limit := g.smallBound() // of the state the settle phase starts from
 					sw := g.settle(rng, limit)
 					o.Count(fmt.Sprintf("rg.settle_sweeps.%d", sw))
 					if sw > limit {
